@@ -506,4 +506,57 @@ theorem loop_agree (ci cs : Cfg) : ∀ (q : Seq) (k : Nat) (s : Style), agreeLoo
         subst hr
         cases k <;> rfl
 
+/-! ### whole token strings -/
+
+theorem toks_agree {γ : Type} (f g : Style → Seq → Except Panic Style) (P : Seq → Prop)
+    (hfg : ∀ s q, P q → f s q = g s q) :
+    ∀ (ts : List (Tok Seq γ)) (s : Style), (∀ q, Tok.sgr q ∈ ts → P q) →
+      (∀ e, parseToks f s ts ≠ .error e) → parseToks f s ts = ssParseToks g s ts
+  | [], _, _, _ => rfl
+  | .text x :: r, s, h, hne => by
+    have ih := toks_agree f g P hfg r s (fun q hq => h q (List.mem_cons_of_mem _ hq))
+      (by
+        intro e he
+        apply hne e
+        simp only [parseToks, he])
+    simp only [parseToks, ssParseToks, ih]
+  | .sgr q :: r, s, h, hne => by
+    have hq := hfg s q (h q (List.mem_cons_self ..))
+    simp only [parseToks, ssParseToks]
+    cases hr : r with
+    | nil =>
+      simp only [List.isEmpty_nil, if_true]
+      cases hf : f s q with
+      | ok s' => simp [parseToks]
+      | error e =>
+        exfalso
+        apply hne e
+        simp only [parseToks, hf]
+    | cons t r' =>
+      simp only [List.isEmpty_cons, Bool.false_eq_true, if_false, ← hq]
+      cases hf : f s q with
+      | error e => rfl
+      | ok s' =>
+        have := toks_agree f g P hfg (t :: r') s' (fun q hq => h q (by rw [hr]; exact List.mem_cons_of_mem _ hq))
+          (by
+            intro e he
+            apply hne e
+            simp only [parseToks, hf, hr, he])
+        exact this
+
+theorem parseToks_no_error {γ : Type} (f : Style → Seq → Except Panic Style)
+    (hf : ∀ s q, (∀ p ∈ q, p ≠ []) → ∃ s', f s q = .ok s') :
+    ∀ (ts : List (Tok Seq γ)) (s : Style), (∀ q, Tok.sgr q ∈ ts → ∀ p ∈ q, p ≠ []) → ∀ e, parseToks f s ts ≠ .error e
+  | [], _, _, e => by simp [parseToks]
+  | .text x :: r, s, h, e => by
+    have ih := parseToks_no_error f hf r s (fun q hq => h q (List.mem_cons_of_mem _ hq))
+    simp only [parseToks]
+    cases hr : parseToks f s r with
+    | ok cs => simp
+    | error e' => exact absurd hr (ih e')
+  | .sgr q :: r, s, h, e => by
+    obtain ⟨s', hs'⟩ := hf s q (h q (List.mem_cons_self ..))
+    simp only [parseToks, hs']
+    exact parseToks_no_error f hf r s' (fun q hq => h q (List.mem_cons_of_mem _ hq)) e
+
 end VaxisModel.Lemmas.SgrAgree
